@@ -298,6 +298,11 @@ def gen_case(rng, op):
                                     -0.1 if rng.random() < 0.3 else 0.5, 1.5 if rng.random() < 0.3 else 1.0])
     else:
         raise ValueError(op)
+    if op in ("combofilter", "gen-pair", "cover") and raw["arity"] >= 2 and rng.random() < 0.5:
+        add_multidose_single_agents(rng, raw)
+    if rng.random() < 0.06:
+        for i in rng.sample(range(len(raw["obs"])), min(len(raw["obs"]), 2)):
+            raw["obs"][i] = rng.choice([float("inf"), float("-inf"), float("nan"), -0.0])
     if (op in GENERATORS or op in SMOOTHERS) and rng.random() < 0.04:
         # nothing unobserved: the wrappers return the input screen itself
         full = gen_screen(rng, "full")
@@ -814,6 +819,26 @@ def d_wide(rng, kind):
     return {"op": "ho-bal", "params": {"fraction": rng.choice([0.5, 0.75, 1.0, 0.9])}, "raw": raw, "npseed": rng.randrange(2 ** 31)}
 
 
+def add_multidose_single_agents(rng, raw):
+    """HARDENING item 18 (a dose-blind combination filter): single-agent rows whose treatment NAME occurs in full combinations but
+    whose (name, dose) pair does not -- the filter must drop them -- next to single-agent rows at a dose that does occur"""
+    a, ctrl = raw["arity"], raw["ctrl"]
+    is_c = lambda nm, d: nm == ctrl or d <= 0
+    combos = [(rn, rd) for rn, rd in zip(raw["tnames"], raw["tdoses"]) if not any(is_c(x, y) for x, y in zip(rn, rd))]
+    if not combos or a < 2:
+        return raw
+    n = len(raw["snames"])
+    for i in rng.sample(range(n), min(n, rng.randint(1, 3))):
+        rn, rd = rng.choice(combos)
+        k = rng.randrange(a)
+        names = [ctrl] * a
+        doses = [1.0] * a
+        names[k] = rn[k]
+        doses[k] = rng.choice([rd[k], 7.0, 0.3, rd[k] * 3.0])      # 7.0 / 0.3 / 3x never occur in the pools of full combinations
+        raw["tnames"][i], raw["tdoses"][i] = names, doses
+    return raw
+
+
 def directed_cases(rng, mult):
     """[(family, case)]"""
     out = []
@@ -1013,6 +1038,10 @@ def execute(case):
     `case["temps"]` (raw screens of the same size as the input): the same object is first called on each of them built as a
     TEMPORARY (only the result is kept), then on the input, also a temporary -- CPython reuses the freed addresses, so a memo keyed
     by `id(screen)` (+ size) hands back another screen's result."""
+    if case.get("verbose") and not case.get("_in_verbose"):
+        # HARDENING item 19: the whole execution (constructor, operation, history calls) under the `batchie` logger at DEBUG
+        with common.verbose_logging():
+            return execute(dict(case, _in_verbose=True))
     o = Outcome()
     try:
         work = build_work(case["raw"], case.get("layout"))
@@ -1659,11 +1688,22 @@ def run_property(ctx, res, prop, oracle, rule, extra_stream=None):
         elif u < 0.26 and len(case["raw"]["snames"]) <= 40:
             add_history(frng, case)
         todo.append((fam, case))
+    for idx, (fam, case) in enumerate(todo):
+        if idx % 8 == 5 or (fam in ("falsy", "wide-seg", "wide-holdout", "seg-101", "no-control") and idx % 2 == 0):
+            case["verbose"] = True
     lines, expect, cases = [], [], []
     xp = []
     for idx, (fam, case) in enumerate(todo):
         op = case["op"]
         o = execute(case)
+        if case.get("verbose"):
+            res.count("class.verbose-logging: case executed under verbose_logging(), compared with the quiet run")
+            quiet = {k: v for k, v in case.items() if k != "verbose"}
+            oq = execute(quiet)
+            same = (impl_canon(quiet, oq) == impl_canon(case, o) and (oq.rng is None) == (o.rng is None)
+                    and (o.rng is None or repr(oq.rng.log) == repr(o.rng.log)) and list(oq.pops) == list(o.pops))
+            if not same:
+                tie(res, prop, case, "the result under DEBUG logging differs from the quiet run (output, draw trace or heap trace)", None)
         res.evaluations += 1
         res.count("op." + op)
         if fam != "random":
